@@ -196,6 +196,10 @@ type MemFS struct {
 	FailOp map[int]syscall.Errno
 	// Vanish removes the file at that (absolute, clean) path just before the first ReadFile of it.
 	Vanish map[string]bool
+	// NoFD: the process has run out of file descriptors. Every operation that needs a new one
+	// (open, the open inside ReadFile / ReadDir) fails with EMFILE; stat and operations on
+	// descriptors that are already open keep working.
+	NoFD bool
 	// Fired counts the faults that the code under test actually ran into.
 	Fired map[string]int
 	// Log of operations (capped).
@@ -377,6 +381,10 @@ func (m *MemFS) ReadFile(name string) ([]byte, error) {
 	if e := m.op("readfile", name); e != 0 {
 		return nil, perr("open", name, e)
 	}
+	if m.NoFD {
+		m.fire("no-descriptors-EMFILE")
+		return nil, perr("open", name, syscall.EMFILE)
+	}
 	if len(m.Vanish) > 0 {
 		c := filepath.Clean(m.abs(name))
 		if m.Vanish[c] {
@@ -417,6 +425,7 @@ type fileInfo struct {
 	name string
 	size int64
 	mode fs.FileMode
+	node *Node
 }
 
 func (f fileInfo) Name() string       { return f.name }
@@ -427,7 +436,7 @@ func (f fileInfo) IsDir() bool        { return f.mode.IsDir() }
 func (f fileInfo) Sys() any           { return nil }
 
 func infoOf(name string, n *Node) fs.FileInfo {
-	fi := fileInfo{name: filepath.Base(name)}
+	fi := fileInfo{name: filepath.Base(name), node: n}
 	switch n.Kind {
 	case DirNode:
 		fi.mode = fs.ModeDir | 0o755
@@ -470,6 +479,10 @@ func (m *MemFS) ReadDirNames(name string) ([]string, error) {
 	if e := m.op("readdir", name); e != 0 {
 		return nil, perr("open", name, e)
 	}
+	if m.NoFD {
+		m.fire("no-descriptors-EMFILE")
+		return nil, perr("open", name, syscall.EMFILE)
+	}
 	n, _, e := m.walkPath(name, true, 0)
 	if e != 0 {
 		m.fire("open-" + errnoName(e))
@@ -496,12 +509,12 @@ func (m *MemFS) Getwd() (string, error) { return m.Cwd, nil }
 
 // File replaces *os.File for files obtained through os.Open (read-only use).
 type File struct {
-	real *os.File
-	fs   *MemFS
-	name string
-	node *Node
-	data []byte
-	off  int
+	real    *os.File
+	fs      *MemFS
+	name    string
+	node    *Node
+	data    []byte
+	off     int
 	dirRead bool
 }
 
@@ -525,6 +538,10 @@ func Open(name string) (*File, error) {
 func (m *MemFS) Open(name string) (*File, error) {
 	if e := m.op("open", name); e != 0 {
 		return nil, perr("open", name, e)
+	}
+	if m.NoFD {
+		m.fire("no-descriptors-EMFILE")
+		return nil, perr("open", name, syscall.EMFILE)
 	}
 	if len(m.Vanish) > 0 {
 		c := filepath.Clean(m.abs(name))
@@ -577,6 +594,43 @@ func (f *File) Read(p []byte) (int, error) {
 	n := copy(p, f.data[f.off:])
 	f.off += n
 	return n, nil
+}
+
+// Seek sets the descriptor's one offset, which every user of the descriptor shares.
+func (f *File) Seek(offset int64, whence int) (int64, error) {
+	if f.real != nil {
+		return f.real.Seek(offset, whence)
+	}
+	Yield(SiteFS)
+	var base int64
+	switch whence {
+	case io.SeekStart:
+	case io.SeekCurrent:
+		base = int64(f.off)
+	case io.SeekEnd:
+		base = int64(len(f.data))
+	default:
+		return 0, perr("seek", f.name, syscall.EINVAL)
+	}
+	if base+offset < 0 {
+		return 0, perr("seek", f.name, syscall.EINVAL)
+	}
+	f.off = int(base + offset)
+	return base + offset, nil
+}
+
+// SameFile replaces os.SameFile: on the simulated disk two infos describe the same file iff
+// they were produced for the same node.
+func SameFile(a, b fs.FileInfo) bool {
+	fa, oka := a.(fileInfo)
+	fb, okb := b.(fileInfo)
+	if oka && okb {
+		return fa.node == fb.node
+	}
+	if oka || okb {
+		return false
+	}
+	return os.SameFile(a, b)
 }
 
 func (f *File) Close() error {
